@@ -135,6 +135,19 @@ Next == \E m \in MatchDom(rq.sort, seen) : Offer(m)
 
 Spec == Init /\ [][Next]_vars
 
+\* Simulation only (Collector_sim.cfg): TLC's simulator computes every successor
+\* before picking one; with ~10^3 possible matches per step that is wasted work,
+\* so the arriving match is drawn at random here (TLC!RandomElement).
+SimMatch ==
+  LET so == rq.sort IN
+  [id |-> RandomElement(IF UsesId(so) THEN (1..MaxNOf(so)) \ {seen[j].id : j \in DOMAIN seen}
+                        ELSE {Len(seen) + 1}),
+   s  |-> RandomElement(IF UsesScore(so) THEN ScoresSorted ELSE ScoresOther),
+   k  |-> [f \in 1..NF |-> RandomElement(FieldDom(so, f))]]
+
+SimNext == Len(seen) < MaxNOf(rq.sort) /\ Offer(SimMatch)
+SimSpec == Init /\ [][SimNext]_vars
+
 \* ---------------------------------------------------------------- invariants
 DC       == [d |-> Docs(seen, P.sort), sort |-> P.sort]
 Eligible == IF P.after = <<>> THEN AllHits(seen)
